@@ -495,6 +495,20 @@ Proof.
   rewrite (app_assoc out d), skipn_app, skipn_all, Nat.sub_diag. cbn [skipn app].
   rewrite !app_length, Hx. reflexivity.
 Qed.
+Lemma m_copy_pad cap out a b lit : a = Z.of_nat (length out) -> b = a + Z.of_nat (length lit) -> (length out + length lit <= cap)%nat ->
+  m_copy (pad_to cap out) a b lit = Ret (pad_to cap (out ++ lit), Z.of_nat (length lit)).
+Proof.
+  intros -> -> H. rewrite m_copy_in by (unfold zlen; rewrite ?pad_length by lia; lia). rewrite Nat2Z.id.
+  replace (Z.to_nat (Z.of_nat (length out) + Z.of_nat (length lit))) with (length out + length lit)%nat by lia.
+  replace (length out + length lit - length out)%nat with (length lit) by lia.
+  unfold pad_to at 1 2 3. rewrite firstn_app, firstn_all, Nat.sub_diag. cbn [firstn]. rewrite app_nil_r.
+  rewrite skipn_app, skipn_all, Nat.sub_diag. cbn [skipn app]. rewrite firstn_repeat by lia.
+  rewrite gocopy_same by (rewrite repeat_length; reflexivity).
+  f_equal. f_equal.
+  - unfold pad_to. rewrite <- app_assoc. f_equal. f_equal.
+    rewrite skipn_app, skipn_all2 by lia. cbn [app]. rewrite skipn_repeat, app_length. f_equal. lia.
+  - rewrite firstn_length, skipn_length, pad_length by lia. f_equal. lia.
+Qed.
 Lemma m_make_ok n : 0 <= n -> m_make n = Ret (repeat 0 (Z.to_nat n)).
 Proof. intros H. unfold m_make. destruct (Z.ltb_spec n 0); [lia|reflexivity]. Qed.
 
@@ -523,7 +537,7 @@ Proof.
     apply IH; rewrite ?app_length; lia.
 Qed.
 
-Ltac pad_side := unfold to_upper; rewrite ?app_length, ?repeat_length, ?map_length; cbn [length]; lia.
+Ltac pad_side := unfold to_upper; repeat (rewrite ?app_length, ?repeat_length, ?map_length; cbn [length]); lia.
 (* one iteration on concrete generated code: the checked buffer operations are rewritten into their values *)
 Ltac fmt_iter s n Hfuel :=
   repeat first
@@ -537,6 +551,7 @@ Ltac fmt_iter s n Hfuel :=
     | rewrite code_toUpper by (first [ eassumption | pad_side ])
     | erewrite splice_tail by pad_side
     | erewrite splice_pad by pad_side
+    | erewrite m_copy_pad by pad_side
     | progress step_code ].
 
 Ltac fmt_shape pk c b p fuel esc fo n unfold_esc :=
@@ -1279,20 +1294,6 @@ Proof.
   intros -> H. rewrite m_slice_in by (unfold zlen; lia). unfold zlen. rewrite !Nat2Z.id.
   rewrite firstn_all2 by (rewrite skipn_length; lia). reflexivity.
 Qed.
-Lemma m_copy_pad cap out a b lit : a = Z.of_nat (length out) -> b = a + Z.of_nat (length lit) -> (length out + length lit <= cap)%nat ->
-  m_copy (pad_to cap out) a b lit = Ret (pad_to cap (out ++ lit), Z.of_nat (length lit)).
-Proof.
-  intros -> -> H. rewrite m_copy_in by (unfold zlen; rewrite ?pad_length by lia; lia). rewrite Nat2Z.id.
-  replace (Z.to_nat (Z.of_nat (length out) + Z.of_nat (length lit))) with (length out + length lit)%nat by lia.
-  replace (length out + length lit - length out)%nat with (length lit) by lia.
-  unfold pad_to at 1 2 3. rewrite firstn_app, firstn_all, Nat.sub_diag. cbn [firstn]. rewrite app_nil_r.
-  rewrite skipn_app, skipn_all, Nat.sub_diag. cbn [skipn app]. rewrite firstn_repeat by lia.
-  rewrite gocopy_same by (rewrite repeat_length; reflexivity).
-  f_equal. f_equal.
-  - unfold pad_to. rewrite <- app_assoc. f_equal. f_equal.
-    rewrite skipn_app, skipn_all2 by lia. cbn [app]. rewrite skipn_repeat, app_length. f_equal. lia.
-  - rewrite firstn_length, skipn_length, pad_length by lia. f_equal. lia.
-Qed.
 Lemma decode_width_pos b t c w : Utf8.decode (b :: t) = (c, w) -> (1 <= w)%nat.
 Proof.
   unfold Utf8.decode. intros H.
@@ -1324,6 +1325,71 @@ Proof.
   destruct (length out + 10 <=? cap)%nat; [|reflexivity]. destruct (bt <? RuneSelf).
   - destruct (append_uint 8 bt 16); reflexivity.
   - destruct (Utf8.decode (bt :: t)) as [c size]. destruct (c =? Utf8.RuneError); [reflexivity|]. destruct (append_uint 8 c 16); reflexivity.
+Qed.
+
+Lemma bind_while_more {S R A} (c : S -> M bool) (b : S -> M (ctl S R)) (p : S -> M S) (K : S + R -> M A) f f' s B :
+  bind (while f c b p s) K = Ret B -> (f <= f')%nat -> bind (while f' c b p s) K = Ret B.
+Proof.
+  intros H Hle. destruct (while f c b p s) as [lr| |] eqn:E; try discriminate.
+  replace f' with (f + (f' - f))%nat by lia. rewrite (while_more c b p (f' - f) f s lr E). exact H.
+Qed.
+Lemma bytes_skipn (s : list Z) k : bytes s -> bytes (skipn k s).
+Proof. intros Hb. unfold bytes in *. rewrite <- (firstn_skipn k s) in Hb. apply Forall_app in Hb. apply Hb. Qed.
+Ltac fmt_done := rewrite <- ?app_assoc; cbn [app]; repeat f_equal; first [reflexivity | pad_side].
+
+Ltac uf_shape pk c b p K fuel :=
+  lazymatch goal with Hb : bytes ?s, Hm : unicode_format_go _ ?cap ?s [] = Some ?B |- _ = Ret ?B =>
+    let ST := constr:(fun (out : list Z) (f0 : Z) (k : nat) => pk (pad_to cap out) (Z.of_nat (length out)) f0 (Z.of_nat k)) in
+    let H1 := fresh "H1" in let H2 := fresh "H2" in
+    assert (H1 : forall k out f0 size out', (k < length s)%nat -> uf_step cap (skipn k s) out = Some (size, out') ->
+       exists f1, iter1 c b p (ST out f0 k) = Ret (inl (ST out' f1 (k + size)%nat)));
+    [ let k := fresh "k" in let out := fresh "out" in let f0 := fresh "f0" in let size := fresh "size" in let out' := fresh "out'" in
+      let Hk := fresh "Hk" in let Hstep := fresh "Hstep" in
+      intros k out f0 size out' Hk Hstep; cbv beta; eexists; iter_open;
+      assert (Hl : (Z.of_nat k <? zlen s) = true) by (apply Z.ltb_lt; unfold zlen; lia); rewrite Hl;
+      pose proof (nth_byte s k Hb Hk) as Hbt; pose proof (bytes_skipn s k Hb) as Hsb;
+      rewrite (m_get_nat s _ k) by lia; rewrite ?(m_slice_suffix s _ k) by lia;
+      unfold uf_step in Hstep; rewrite (skipn_cons_nth s k Hk) in Hstep; rewrite <- (skipn_cons_nth s k Hk) in Hstep;
+      destruct (Nat.leb_spec (length out + 10) cap) as [Hroom|]; [|discriminate Hstep];
+      unfold RuneSelf in Hstep; unfold std_utf8_DecodeRune;
+      destruct (nth k s 0 <? 128) eqn:Ea;
+      [ destruct (append_uint 8 (nth k s 0) 16) as [d|] eqn:Ed; [|discriminate Hstep]; injection Hstep as <- <-;
+        pose proof (append_uint_length _ _ _ _ Ed) as Hdl; assert (Hdb : bytes d) by (eapply append_uint_bytes; [|exact Ed]; lia);
+        fmt_iter s 8%nat fuel; rewrite ?Ed; cbn [lift]; fmt_iter s 8%nat fuel; fmt_done
+      | destruct (Utf8.decode (skipn k s)) as [cc w] eqn:Edec;
+        assert (Hc : 0 <= cc < 4294967296) by
+          (destruct (decode_range _ _ _ Edec) as [H|(b0 & t0 & E & Hneg)]; [exact H|exfalso; rewrite (skipn_cons_nth s k Hk) in E; injection E as E _; lia]);
+        unfold Utf8.RuneError in Hstep;
+        destruct (cc =? 65533) eqn:Ec;
+        [ injection Hstep as <- <-; fmt_iter s 8%nat fuel; unfold FFFD8; fmt_done
+        | destruct (append_uint 8 cc 16) as [d|] eqn:Ed; [|discriminate Hstep]; injection Hstep as <- <-;
+          pose proof (append_uint_length _ _ _ _ Ed) as Hdl; assert (Hdb : bytes d) by (eapply append_uint_bytes; [|exact Ed]; lia);
+          rewrite (wrap_small 64 cc) by (change (2 ^ 64) with 18446744073709551616; lia);
+          fmt_iter s 8%nat fuel; rewrite ?Ed; cbn [lift]; fmt_iter s 8%nat fuel; fmt_done ] ]
+    | ];
+    assert (H2 : forall k out f0, (length s <= k)%nat -> iter1 c b p (ST out f0 k) = Ret (inr (inl (ST out f0 k))));
+    [ intros; cbv beta; iter_open; unfold zlen; repeat break_if; zb; try reflexivity; exfalso; lia | ];
+    apply (bind_while_more c b p K (S (length s)) fuel); [|lia];
+    exact (rune_while ST c b p K s (uf_step cap) (fun fu s0 out => unicode_format_go fu cap s0 out) (pad_to cap)
+             (fun _ _ => eq_refl) (fun fu s0 out => unicode_go_step fu cap s0 out) H1 H2 (fun _ _ _ => eq_refl)
+             (S (length s)) 0%nat [] 0 B Hm)
+  end.
+
+(* UnicodeFormat: every byte string, every fuel above its length (and above 8: toUpper runs over the eight digits with the
+   caller's fuel).  The model's answer on byte strings is total (Proofs/CodecFormat.v); the generated loop is shown to reach
+   it, one rune per iteration. *)
+Theorem code_UnicodeFormat : forall fuel s, bytes s -> (length s < fuel)%nat -> (8 < fuel)%nat -> g_UnicodeFormat fuel s = lift (unicode_format s).
+Proof.
+  intros fuel s Hb Hf Hf8. unfold g_UnicodeFormat. set (K1 := g_appendUint). set (K2 := g_toUpper). repeat autounfold with go2v. subst K1 K2. step_code.
+  unfold std_utf8_RuneCount. rewrite m_make_ok by lia. step_code.
+  pose proof (unicode_format_shape s Hb) as Hm. rewrite Hm. cbn [lift]. unfold unicode_format in Hm.
+  replace (Z.to_nat (Z.of_nat (Utf8.rune_count s) * 10)) with (Utf8.rune_count s * 10)%nat by lia.
+  rewrite make_pad. set (cap := (Utf8.rune_count s * 10)%nat) in *.
+  match goal with |- match while _ ?c ?b ?p ?s0 with Ret a => @?K a | Panic => Panic | NoFuel => NoFuel end = _ =>
+    change (bind (while fuel c b p s0) K = Ret (s_unicode_format s));
+    first [ solve [uf_shape (fun (B : list Z) (j f i : Z) => (B, j, f, i)) c b p K fuel]
+          | solve [uf_shape (fun (B : list Z) (j f i : Z) => (B, j, i)) c b p K fuel] ]
+  end.
 Qed.
 
 (* ================================================================== the case interpreter through the generated code *)
